@@ -123,7 +123,9 @@ class GeckoSnapshot:
         )
 
     def _re_data_segment(self, groups):
-        data = groups[0].replace("'", "\\x27")
+        # The traffic is logged as a bytes repr, so a quote may already be escaped
+        # (when the data has both quote characters); only escape the bare ones
+        data = re.sub(r"(?<!\\)((?:\\\\)*)'", r"\1\\x27", groups[0])
         bytes_ = ast.literal_eval(f"b'{data}'")
         self._status_block_handler.handle(bytes_, None)
         self._status_block_segments.append(self._status_block_handler.data)
